@@ -1,6 +1,7 @@
 import ComposeVerif.Lemmas.ShortTransform
 import ComposeVerif.Model.ShortTransform
 import ComposeVerif.Model.Merge
+import ComposeVerif.Model.ShortMerge
 /-!
 # C03 × override.Merge: the second expansion site of the short forms
 
@@ -54,21 +55,5 @@ theorem listIntoMap_networks_distinct (names : List String) (hnd : names.Nodup) 
   | ok b => rw [hm] at h; simp only [sameOut, List.nil_append] at h; rw [h]
   | err e => rw [hm] at h; simp [sameOut] at h
   | panic e => rw [hm] at h; simp [sameOut] at h
-
-/-! ## the loader's two-document pipeline, at one attribute
-
-`loadYamlFile` (loader/loader.go): `dict = Merge(dict, cfg); dict = Canonical(dict)` per document.  At the
-position of an attribute with a converting merger this is: canonical form of document 1, merged with the **raw**
-value of document 2, made canonical again. -/
-
-def liftM {α : Type} : Merge.Out α → Out α
-  | .ok a => .ok a
-  | .err e => .err e
-  | .panic s => .panic s
-
-/-- `t` = the transformer at the attribute, `r` = the merge rule at the attribute -/
-def twoDocs (t : Val → Out Val) (mk : Val.KVs → Val.KVs → TPath → Merge.Out Val.KVs) (r : Merge.Rule)
-    (doc1 doc2 : Val) (p : TPath) : Out Val :=
-  bindOut (t doc1) fun c1 => bindOut (liftM (Merge.specialStep mk r c1 doc2 p)) t
 
 end CV.Short
